@@ -16,7 +16,7 @@ import sys
 import tempfile
 
 VERIF = os.path.dirname(os.path.dirname(os.path.abspath(__file__)))
-BENIGN = os.path.join(VERIF, "seeded", "benign")
+BENIGN = os.path.join(VERIF, "seeded", os.environ.get("BENIGN_SET", "benign"))   # BENIGN_SET=benign2: the set written against the repaired tree
 PY = "/venv/bin/python"
 PROPS = ["C01", "C02", "C09", "C11", "C12", "C13", "C14", "C17", "C18", "C19", "C20"]
 
